@@ -852,7 +852,7 @@ def build_unit(unit_dir, out_dir):
         if d.name in ("fn", "fn?"):
             cur_fn = (d, [])
             top.append(("fn", cur_fn))
-        elif d.name in ("requires", "ensures", "rewrite", "loop", "loop?", "forloop", "closure", "hint", "hint?", "sig", "decreases", "recommends", "fnattr", "rename", "tracevar", "drop", "world", "hide"):
+        elif d.name in ("requires", "ensures", "rewrite", "loop", "loop?", "forloop", "closure", "hint", "hint?", "sig", "decreases", "recommends", "fnattr", "rename", "tracevar", "drop", "world", "hide", "subst"):
             if cur_fn is None:
                 raise VxError(f"unit.vx:{d.lineno}: @{d.name} outside @fn")
             cur_fn[1].append(d)
@@ -1041,6 +1041,21 @@ def parse_inline_rewrites(d):
     return res
 
 
+def find_macro_fn(src, macro, fname):
+    m = re.search(r"\bmacro_rules!\s*" + re.escape(macro) + r"\b", src.mask)
+    if not m:
+        raise VxError(f"lost anchor: macro_rules! {macro} not found")
+    bo = src.mask.index("{", m.end())
+    bc = match_close(src.mask, bo)
+    f = re.search(r"\bfn\s+" + re.escape(fname) + r"\b", src.mask[bo:bc])
+    if not f:
+        raise VxError(f"lost anchor: fn {fname} not found in macro {macro}")
+    start = bo + f.start()
+    body_open = src.mask.index("{", start)
+    body_close = match_close(src.mask, body_open)
+    return Item("fn", fname, "", start, body_close + 1, body_open, body_open, body_close)
+
+
 def emit_fn(em, info, unit, cur_source, blk, typemap):
     d, subs = blk
     args, fn_label = split_label(d.args)
@@ -1051,17 +1066,35 @@ def emit_fn(em, info, unit, cur_source, blk, typemap):
     m = re.match(r"(.*?)(?:\s*->\s*([A-Za-z_][A-Za-z0-9_]*))?$", args)
     fnpath, retname = m.group(1).strip(), m.group(2)
     src = Source.get(cur_source)
-    try:
-        it = src.find("fn", fnpath, select)
-    except VxError:
-        if d.name == "fn?":
-            info.setdefault("optional_missing", []).append(fnpath)
-            return
-        raise
+    mm = re.match(r"macro\s+([A-Za-z_][A-Za-z0-9_]*)::([A-Za-z_][A-Za-z0-9_]*)$", fnpath)
+    if mm:
+        # N20: a method defined inside a `macro_rules!` body: located textually, the macro's `$x` parameters are substituted
+        # by the sidecar's @subst lines (what the macro expansion does), then treated as a free function
+        it = find_macro_fn(src, mm.group(1), mm.group(2))
+    else:
+        try:
+            it = src.find("fn", fnpath, select)
+        except VxError:
+            if d.name == "fn?":
+                info.setdefault("optional_missing", []).append(fnpath)
+                return
+            raise
     if it.body_open is None:
         raise VxError(f"{fnpath}: no body")
     raw = strip_attrs(src.text[it.start:it.end])
+    if mm:
+        for s_ in subs:
+            if s_.name == "subst":
+                a, b = (s_.args + " " + s_.text).strip().split("=>", 1)
+                a, b = a.strip(), b.strip()
+                if a not in raw:
+                    raise VxError(f"lost anchor: @subst `{a}` not in macro fn {fnpath}")
+                raw = raw.replace(a, b)
+        if "$" in mask_rust(raw):
+            raise VxError(f"unsupported construct: unsubstituted macro parameter in {fnpath}: {raw[raw.index('$'):][:30]}")
     ft = FnText(raw, unit, fnpath)
+    if mm:
+        ft.log.append({"rule": "N20.macro_fn", "fn": fnpath, "from": f"macro_rules! {mm.group(1)} {{ .. fn {mm.group(2)} .. }}", "to": "free function after @subst"})
 
     # ---- generic rules
     delete_log_macros(ft)
